@@ -27,7 +27,7 @@ import time
 from harness import common, gasol
 from harness import c12 as H
 
-ME = "b-c13"
+ME = "b-c13_%d" % os.getpid()      # private work directory: two runs of the check may overlap
 EX = "examples/jsons-solc/"
 CONTRACTS_QUICK = ["0x7aa21657E549943089bfA6547465b910c6b89c98.json_solc",
                    "0x363c421901B7BDCa0f2a17dA03948D676bE350E4.json_solc"]
